@@ -8,6 +8,7 @@ the same source).  Per unit the driver prints
   L  ok | unmodelled <reason,…> | skipped      the real listing read into `List C01C.Instr`
   RV <outcome>      `C01C.run` on the REAL listing            (state carried from unit to unit)
   XV <outcome>      the extended VM (`BCExt`) on the REAL listing, when the listing is inside the extended set
+  XO <text>         what the extended VM wrote to the output port in this unit (`\n` and `\\` escaped)
   SE <outcome>      `evalC` on the generator's Core term      (only with `\x1eC` lines)
   MV <outcome>      `C01C.run (compileTop e)`                 (only with `\x1eC` lines)
   CMP identical | diff <class> | -             `compileTop e` vs the real listing after `normalise`
@@ -156,8 +157,17 @@ def histo (ls : List Line) : String :=
   let names := (ls.map (·.op)).eraseDups
   ",".intercalate (names.map fun n => s!"{n}={(ls.filter (·.op == n)).length}")
 
+/-- A constant whose text contains a newline spreads over several lines of the listing: a line that is not a
+listing line continues the text column of the line before it. -/
+def mergeLines (ls : List String) : List String :=
+  (ls.foldl (fun (acc : List String) l =>
+    match acc with
+    | [] => [l]
+    | prev :: rest => if (parseLine l).isSome then l :: acc else (prev ++ "\n" ++ l) :: rest) []).reverse
+
 /-- Process one unit: `cores` = the `\x1eC` lines, `listings` = the listings (each a list of raw lines), `rm`. -/
 def doUnit (ps : PState) (cores : List String) (listings : List (List String)) (rm : Remap) : PState × List String :=
+  let listings := listings.map mergeLines
   let parsed : List (List Line) := listings.map (fun l => l.filterMap parseLine)
   let lineLoss := (listings.zip parsed).any (fun (a, b) => a.length != b.length)
   let codes := parsed.map (toCode rm)
@@ -178,7 +188,7 @@ def doUnit (ps : PState) (cores : List String) (listings : List (List String)) (
   -- extended VM on the real listing
   let (xvSt, xvLine) :=
     match ps.xvSt with
-    | none => (none, "XV -")
+    | none => (none, "XV - skipped")
     | some st =>
       if lineLoss then (none, "XV - unparsable-line")
       else
@@ -186,7 +196,8 @@ def doUnit (ps : PState) (cores : List String) (listings : List (List String)) (
         | .error b => (none, "XV - " ++ ",".intercalate b.eraseDups)
         | .ok xc =>
           let r := xRunProgram fuelVM xc st
-          ((match r with | .ok (_, st') => some st' | _ => none), "XV " ++ xShowOutcome r)
+          let esc := (r.out.replace "\\" "\\\\").replace "\n" "\\n"
+          (r.st, "XV " ++ r.line ++ "\nXO " ++ esc)
   -- the generator's Core terms
   let terms : Option (List Core) :=
     if cores.isEmpty then none
